@@ -10,6 +10,7 @@ package main
 import (
 	"fmt"
 	"math/big"
+	"strings"
 	"time"
 
 	sifapp "github.com/Sifchain/sifnode/app"
@@ -67,11 +68,18 @@ type comGen struct {
 	unknown string
 	// exact-boundary scenarios: delegating / redelegating exactly this much to validator 0 gives exactly 6.6 %
 	exactDel, exactRedel *big.Int
+	last                 int // the validator targeted last
 }
 
 func (g *comGen) valID(a string) string {
 	if id, ok := g.ids[a]; ok {
 		return id
+	}
+	// another valid spelling (upper case) of a known validator: the same validator
+	if va, err := sdk.ValAddressFromBech32(a); err == nil {
+		if id, ok := g.ids[va.String()]; ok {
+			return id
+		}
 	}
 	if a == g.unknown {
 		return "u"
@@ -109,6 +117,13 @@ func (g *comGen) valAddr() (string, int) {
 		return g.unknown, -1
 	}
 	i := g.rng.Intn(len(g.ops))
+	if g.last >= 0 && g.last < len(g.ops) && g.rng.Chance(2, 5) {
+		i = g.last // several (re)delegations to one validator in one transaction
+	}
+	g.last = i
+	if g.rng.Chance(1, 6) {
+		return strings.ToUpper(g.ops[i]), i // bech32 in upper case: the same validator
+	}
 	return g.ops[i], i
 }
 
@@ -138,6 +153,9 @@ func (g *comGen) amount(i int, redelegate bool) *big.Int {
 		return big.NewInt(int64(g.rng.Intn(3)))
 	}
 	a := new(big.Int).Quo(num, den)
+	if g.rng.Chance(1, 3) {
+		a.Quo(a, big.NewInt(int64(2+g.rng.Intn(2)))) // a share of the boundary amount: several of them add up to it
+	}
 	a.Add(a, big.NewInt(int64(g.rng.Intn(5)-2)))
 	if a.Sign() < 0 {
 		a.SetInt64(0)
@@ -213,7 +231,7 @@ func init() {
 		for out.N < 2*n {
 			scen++
 			ctx, _ := ctx0.CacheContext()
-			g := &comGen{rng: rng, grantee: grantee, ids: map[string]string{}, unknown: unknown, denom: app.StakingKeeper.BondDenom(ctx)}
+			g := &comGen{last: -1, rng: rng, grantee: grantee, ids: map[string]string{}, unknown: unknown, denom: app.StakingKeeper.BondDenom(ctx)}
 			// validators: K of them, sizes of one magnitude so that the 6.6 % boundary is within reach
 			K := rng.Intn(26)
 			if rng.Chance(1, 12) {
